@@ -570,6 +570,9 @@ VARIANTS["C06"] = [
     V("nchunk-wrong", "fire", VO, [("        delayed(my_function)(i, nprocesses) for i in range(nprocesses)\n", "        delayed(my_function)(i, nprocesses + 1) for i in range(nprocesses)\n")], ("D4",),
       "no worker believes it is the last: the tail after nprocesses*CHUNK_SIZE is never written"),
     V("append-truncates", "fire", VO, [("    else:\n        offset = 0\n        open(output_file, \"wb\").close()\n", "    else:\n        offset = 0\n    open(output_file, \"wb\").close()\n")], ("D4",), ""),
+    V("last-batch-detected-by-length", "fire", VO, [("            if last_s == _sr.ns:\n                # for the last batch", "            if chunk.shape[1] < NBATCH:\n                # for the last batch")], ("D1",),
+      "a last batch that is exactly NBATCH long is not recognised: the final 1024 samples are dropped when ns == NBATCH + k*stride"),
+    V("twin-last-ge", "twin", VO, [("            if last_s == _sr.ns:\n                # for the last batch", "            if last_s >= _sr.ns:\n                # for the last batch")], (), ""),
     V("twin-stride-var", "twin", VO, [("            first_s += NBATCH - SAMPLES_TAPER * 2\n", "            step = NBATCH - 2 * SAMPLES_TAPER\n            first_s = first_s + step\n")], (), ""),
     V("twin-intnorm-inplace", "twin", VO, [("            chunk = chunk[slice(*ind2save), :] * intnorm\n", "            chunk = chunk[slice(*ind2save), :]\n            chunk = chunk * intnorm\n")], (), ""),
 ]
